@@ -482,6 +482,9 @@ Inductive c19case :=
 | CHttp (interval timeout now : Z) (steps : list (list (hact bytes) * hobs))
 (* two GoatOverHttp instances over real HTTP: envelopes written on one end, envelopes read on the other *)
 | CHttpE2E (written : list rpc) (write_ok : list bool) (read : list (option rpc))
+(* the same without the replay on the link model: the quick tier uses it for the 1 MiB cases except one (the replay of a
+   megabyte costs seconds; the thorough tier replays all of them) *)
+| CHttpE2EQ (written : list rpc) (write_ok : list bool) (read : list (option rpc))
 (* one raw HTTP request against a GoatOverHttp behind a real listener, with a reader waiting on the
    connection of every address: what ServeHTTP was given to read (after net/http's framing: chunked or
    unknown length, a Content-Length that is larger / smaller than what is sent), the status it
@@ -552,6 +555,9 @@ Definition check (c : c19case) : list nat :=
       (* the model delivers a request at most once (C19_http_at_most_once) as the decoded envelope: a duplicate or a
          foreign envelope is a disagreement as well as a failing input *)
       (if nodup && inorder then [] else [1%nat]) ++ (if nodup && inorder && acked then [] else [2%nat])
+  | CHttpE2EQ written oks read =>
+      (if list_eqb (opt_eqb rpc_eqb) (map (fun e => decode (encode e)) written) read then [] else [1%nat]) ++
+      (if forallb (fun b => b) oks && list_eqb (opt_eqb rpc_eqb) read (map Some written) then [] else [2%nat])
   | CHttpE2E written oks read =>
       (if list_eqb (opt_eqb rpc_eqb) (map (fun e => decode (encode e)) written) read then [] else [1%nat]) ++
       (let k := link_exchange (lk_init 60 90 0) written in
